@@ -445,6 +445,8 @@ class Program:
                 return len(f(node.args[0]))
             if cname in ("str", "int", "bool", "abs") and len(node.args) == 1 and not node.keywords:
                 v_ = f(node.args[0])
+                if cname == "bool" and (v_ is None or isinstance(v_, (tuple, list, dict, set, frozenset))):
+                    return bool(v_)
                 if not isinstance(v_, (str, int, bool)):
                     raise CannotFold(f"conversion not foldable: {unparse(node)[:60]}")
                 try:
